@@ -22,6 +22,7 @@ import shutil
 import subprocess
 import sys
 import tempfile
+import time
 
 HERE = os.path.dirname(os.path.abspath(__file__))
 INJECT = os.path.join(HERE, "cli_inject")
@@ -165,8 +166,13 @@ def child_env(tmpdir, fault="none", jitter=None):
     return env
 
 
-def argv_for(channel, fmt, out, in_path, stdin_dash):
-    a = [sys.executable, "-c", ENTRY, "report"]
+GLOBAL_OPTS = [[], ["--verbose"], ["--quiet"], ["--verbose", "--quiet"]]
+
+
+def argv_for(channel, fmt, out, in_path, stdin_dash, gopt=0):
+    """`gopt` selects the global options in front of the command: they change what goes to stderr, never the exit status,
+    stdout or the files"""
+    a = [sys.executable, "-c", ENTRY] + GLOBAL_OPTS[gopt % 4] + ["report"]
     if fmt == "csv":
         a.append("--csv")
     if out in ("new", "exists"):
@@ -253,7 +259,7 @@ def run_case(cls, channel, fmt, fault, out, ureports, k, keep_root=None):
             with open(os.path.join(root, "cwd", "out.file"), "w") as f:
                 f.write("previous content\n")
         before = listing(root)
-        argv = argv_for(channel, fmt, out, in_path, stdin_dash=(k % 2 == 0))
+        argv = argv_for(channel, fmt, out, in_path, stdin_dash=(k % 2 == 0), gopt=(k // 2 + (fmt == "csv")) % 4)
         env = child_env(os.path.join(root, "tmp"), fault)
         need_rows = cls in ("valid", "unsched") and data is not None
         dproc = None
@@ -483,14 +489,26 @@ def cli_conc(req):
         import threading
         results = [None] * n
 
+        stagger = req.get("stagger_ms", 0) / 1000.0
+        chained = bool(req.get("chained"))
+        done = [threading.Event() for _ in range(n)]
+
         def collect(i):
             s, pr, inp = procs[i]
             try:
+                if chained and i > 0:
+                    # the processes are all running and wait for their input; each gets it only when the one before it has
+                    # finished (and cleaned up): deterministic, whatever the load of the machine
+                    done[i - 1].wait(RUN_TIMEOUT)
+                elif stagger:
+                    time.sleep(i * stagger)
                 o, e = pr.communicate(inp, timeout=RUN_TIMEOUT)
                 results[i] = (pr.returncode, o, e)
             except subprocess.TimeoutExpired:
                 pr.kill()
                 results[i] = (-9, b"", b"timeout")
+            finally:
+                done[i].set()
         th = [threading.Thread(target=collect, args=(i,)) for i in range(n)]
         for t in th:
             t.start()
